@@ -72,7 +72,7 @@ def parseChunk (bodyOk : Nat → Bytes → Bool) (input : Bytes) : PResult Chunk
     let data := i.take h.dataLen
     let remaining := i.drop h.dataLen
     if h.ty = Consts.CHUNK_TYPE_COMPRESSED then
-      match Inflate.inflate data with
+      match Inflate.inflateExact data with
       | none => .error .invalid
       | some dec =>
         if bodyOk Consts.CHUNK_TYPE_CHANGE dec
